@@ -14,6 +14,11 @@ def _lift(x):
     return x
 
 
+class Thrown(Exception):
+    """the transliterated code executed a SimTK_THROW (ghost 'threw' flag of DESIGN 2.2)"""
+    pass
+
+
 class BUnit:
     """A namespace of transliterated real functions + obligation recording for one property."""
     def __init__(self, ctx):
@@ -88,6 +93,7 @@ class BUnit:
                 return
             self.precond_violations.append(("symbolic", c, text))
         ns["ASSERT"] = ASSERT
+        ns["Thrown"] = Thrown
         self.branch_script = []
         self.branch_pos = 0
         self.path = []
